@@ -52,7 +52,7 @@ func main() {
 		}
 		fams = sel
 	}
-	progs.Run(r, pool, fams, progs.Options{CasesPerProgram: 12, KeyPrefix: "C02", Ref: "wa", Impl: "native"})
+	progs.Run(r, pool, fams, progs.Options{CasesPerProgram: 40, KeyPrefix: "C02", Ref: "wa", Impl: "native"})
 	pool.Close()
 	if r.Evals.Load() == 0 {
 		r.HarnessError("vacuous: no item was evaluated")
